@@ -62,4 +62,12 @@ def run (s : St) : List Op → St × List Int
     let (s'', os) := run s' ops
     (s'', o :: os)
 
+/-- `StreamManager.resume` (stream_manager.go) keeps ONE zero-valued `backoff` - package defaults, jitter on - for
+the whole retry loop of one connection loss and calls `wait()` = `time.Sleep(duration())` after every failed
+attempt (tied by `Tie.C19.tie_supervisor_backoff`). -/
+def supervisorCfg : Cfg := ⟨0, 0, 0, false⟩
+
+/-- the exclusive upper bounds (ns) of the waits after the first `k` consecutive failed attempts of one loss -/
+def supervisorBounds (k : Nat) : List Int := (run ⟨supervisorCfg, 0⟩ (List.replicate k .dur)).2
+
 end XmppVerif.Model.C19
